@@ -8,11 +8,83 @@ use util::*;
 
 fn main() {
     let a = Args::parse();
+    if std::env::var("C06_WORKER").is_err() { return supervise(&a); }
     match a.stream.as_str() {
         "bounded" => run_bounded(&a),
         "fixed" => run_fixed(&a),
         s => { eprintln!("unknown stream {}", s); std::process::exit(2); }
     }
+}
+
+// ---------------------------------------------------------------------------------------------
+// crash containment: the real code runs in a child process. If a change to the crate makes it read
+// or write outside the backing slice, the allocator may abort the process; the supervisor then
+// reports the case that was running as a property violation instead of dying with it.
+
+static CURRENT: std::sync::Mutex<Option<std::fs::File>> = std::sync::Mutex::new(None);
+
+/// remember the case about to run (worker side)
+fn mark_current(line: &str) {
+    use std::io::{Seek, SeekFrom, Write};
+    if let Some(f) = CURRENT.lock().unwrap().as_mut() {
+        let _ = f.set_len(0);
+        let _ = f.seek(SeekFrom::Start(0));
+        let _ = f.write_all(line.as_bytes());
+    }
+}
+
+fn open_current(out: &str) {
+    std::fs::create_dir_all(out).unwrap();
+    *CURRENT.lock().unwrap() = Some(std::fs::File::create(format!("{}/current", out)).unwrap());
+    *FAIL_LOG.lock().unwrap() = Some((std::fs::File::create(format!("{}/failures.jsonl", out)).unwrap(), 0));
+}
+
+/// oracle failures are also appended to a file as they happen, so that they survive a later crash
+static FAIL_LOG: std::sync::Mutex<Option<(std::fs::File, usize)>> = std::sync::Mutex::new(None);
+
+fn sync_failures(st: &Stream) {
+    use std::io::Write;
+    if let Some((f, n)) = FAIL_LOG.lock().unwrap().as_mut() {
+        while *n < st.oracle_failures.len() {
+            let _ = writeln!(f, "{}", st.oracle_failures[*n]);
+            *n += 1;
+        }
+    }
+}
+
+fn supervise(a: &Args) {
+    use std::os::unix::process::ExitStatusExt;
+    let wdir = format!("{}/worker-{}", a.out, a.stream);
+    let _ = std::fs::remove_dir_all(&wdir);
+    std::fs::create_dir_all(&wdir).unwrap();
+    let status = std::process::Command::new(std::env::current_exe().unwrap())
+        .args([a.stream.as_str(), "--tier", a.tier.as_str(), "--seed", &a.seed.to_string(), "--out", &wdir])
+        .env("C06_WORKER", "1")
+        .status()
+        .expect("cannot start the worker process");
+    if status.success() {
+        for ext in ["ops", "impl", "json"] {
+            std::fs::rename(format!("{}/{}.{}", wdir, a.stream, ext), format!("{}/{}.{}", a.out, a.stream, ext)).unwrap();
+        }
+        let _ = std::fs::remove_dir_all(&wdir);
+        return;
+    }
+    if status.signal().is_none() {
+        // not a crash of the code under test: usage error or a bug of the harness itself
+        std::process::exit(status.code().unwrap_or(3));
+    }
+    let cur = std::fs::read_to_string(format!("{}/current", wdir)).unwrap_or_default();
+    let mut st = Stream::new(&a.out, &a.stream);
+    // failures found before the crash come first: they are the smaller, more precise cases
+    for l in std::fs::read_to_string(format!("{}/failures.jsonl", wdir)).unwrap_or_default().lines() {
+        if l.starts_with('{') && l.ends_with('}') && st.oracle_failures.len() < 19 { st.oracle_failures.push(l.to_string()); st.oracle_checks += 1; }
+    }
+    st.oracle_fail(
+        "the process executing the real ring buffer was killed by a signal (allocator abort / segfault: memory outside the backing slice was read or written) during or shortly before this case",
+        &cur, "every access inside the backing slice", &format!("{:?}", status));
+    st.case(&cur, "abort", true, 1);
+    st.note("worker process crashed; only the case that was running is reported");
+    st.finish();
 }
 
 const KINDS: [&str; 4] = ["arr", "vec", "box", "mut"];
@@ -183,6 +255,19 @@ fn exec_b<S: SliceMut<Element = i32>>(slot: &mut Option<Bounded<S>>, op: &BOp, e
         BOp::Raw | BOp::Data => unreachable!(),
     });
     extra.extend(ex);
+    // raw parts after each operation (property: observe_at): a mutating call must leave a state that
+    // `from_raw_parts` accepts; if it does not, stop using the buffer (further calls would be UB)
+    if mutating_b(op) {
+        let b = slot.take().unwrap();
+        let (s, l, d) = unsafe { b.into_raw_parts() };
+        let cap = d.slice().len();
+        if s < cap && l <= cap {
+            *slot = guarded(move || Bounded::from_raw_parts(s, l, d));
+        } else {
+            extra.push((format!("`{}` left the buffer in an invalid internal state (needs start < capacity and len <= capacity)", op.token()),
+                format!("start < {} and len <= {}", cap, cap), format!("start={} len={}", s, l)));
+        }
+    }
     r.unwrap_or(Seen::Panic)
 }
 
@@ -316,6 +401,7 @@ fn case_b(st: &mut Stream, kind: &str, ctor: BCtor, data: &[i32], ops: &[BOp]) {
     line.push_str(" |");
     for op in ops { line.push(' '); line.push_str(&op.token()); }
 
+    mark_current(&line);
     let ((seen, extra), canary_ok) = dispatch(kind, data.to_vec(), BRun { ctor, ops });
     let (start0, len0) = match ctor { BCtor::Raw(s, l) => (s, l), BCtor::Full => (0, cap), BCtor::Empty => (0, 0) };
     let valid = start0 < cap && len0 <= cap;
@@ -336,7 +422,9 @@ fn case_b(st: &mut Stream, kind: &str, ctor: BCtor, data: &[i32], ops: &[BOp]) {
                 let mut id = IdealQ { q: data.iter().cycle().skip(start0).take(len0).copied().collect(), cap };
                 let mut moved = start0 != 0;
                 let mut n_ok = 0;
+                for (what, e, o) in &extra { st.oracle_fail(what, &line, e, o); }
                 for (k, (op, s)) in ops.iter().zip(seen.iter()).enumerate() {
+                    if *s == Seen::Dead { break; } // already reported above
                     st.count(&format!("op_{}", op.kind()));
                     if *s == Seen::Panic { st.count("op_panic"); }
                     if let Seen::Raw(s0, _, _) = s { if *s0 != 0 { moved = true; } }
@@ -351,7 +439,6 @@ fn case_b(st: &mut Stream, kind: &str, ctor: BCtor, data: &[i32], ops: &[BOp]) {
                     }
                 }
                 st.oracle_ok(n_ok);
-                for (what, e, o) in &extra { st.oracle_fail(what, &line, e, o); }
                 nontrivial = moved && ops.iter().any(mutating_b);
             }
             seen.iter().map(|s| s.show()).collect::<Vec<_>>().join(" ")
@@ -359,6 +446,7 @@ fn case_b(st: &mut Stream, kind: &str, ctor: BCtor, data: &[i32], ops: &[BOp]) {
     };
     if !canary_ok { st.oracle_fail("memory outside the backing slice was written", &line, "guard cells untouched", "guard cell changed"); } else if kind == "mut" { st.oracle_ok(1); }
     st.case(&line, &obs, nontrivial, ops.len() as u64 + 1);
+    sync_failures(st);
 }
 
 /// the 8-symbol alphabet of mutating operations used for the exhaustive enumeration
@@ -378,6 +466,7 @@ fn alphabet_b(sym: usize, cap: usize, v: &mut Vals) -> BOp {
 const NSYM_B: usize = 8;
 
 fn run_bounded(a: &Args) {
+    open_current(&a.out);
     let mut st = Stream::new(&a.out, "bounded");
     let mut rng = Rng::new(a.seed, "bounded");
 
@@ -570,6 +659,17 @@ fn exec_f<S: SliceMut<Element = i32>>(slot: &mut Option<Fixed<S>>, op: &FOp, ext
         FOp::Raw | FOp::Data => unreachable!(),
     });
     extra.extend(ex);
+    if mutating_f(op) {
+        let f = slot.take().unwrap();
+        let (first, d) = f.into_raw_parts();
+        let n = d.slice().len();
+        if first < n {
+            *slot = guarded(move || Fixed::from_raw_parts(first, d));
+        } else {
+            extra.push((format!("`{}` left the buffer in an invalid internal state (needs first < N)", op.token()),
+                format!("first < {}", n), format!("first={}", first)));
+        }
+    }
     r.unwrap_or(Seen::Panic)
 }
 
@@ -683,6 +783,7 @@ fn case_f(st: &mut Stream, kind: &str, ctor: FCtor, data: &[i32], ops: &[FOp]) {
     line.push_str(" |");
     for op in ops { line.push(' '); line.push_str(&op.token()); }
 
+    mark_current(&line);
     let ((seen, extra), canary_ok) = dispatch(kind, data.to_vec(), FRun { ctor, ops });
     let first0 = match ctor { FCtor::Raw(f) => f, FCtor::From => 0 };
     let valid = first0 < n;
@@ -703,7 +804,9 @@ fn case_f(st: &mut Stream, kind: &str, ctor: FCtor, data: &[i32], ops: &[FOp]) {
                 let mut id = IdealD { entered: Some(q.iter().copied().collect()), q, n, first: first0, pushes: 0 };
                 let mut n_ok = 0;
                 let mut moved = first0 != 0;
+                for (what, e, o) in &extra { st.oracle_fail(what, &line, e, o); }
                 for (k, (op, s)) in ops.iter().zip(seen.iter()).enumerate() {
+                    if *s == Seen::Dead { break; }
                     st.count(&format!("op_{}", op.kind()));
                     if *s == Seen::Panic { st.count("op_panic"); }
                     if matches!(op, FOp::Push(_) | FOp::Ext(_) | FOp::First(_)) { moved = true; }
@@ -717,7 +820,6 @@ fn case_f(st: &mut Stream, kind: &str, ctor: FCtor, data: &[i32], ops: &[FOp]) {
                 }
                 if id.pushes > n && id.entered.is_some() { st.count("cases_with_push_history_longer_than_N"); }
                 st.oracle_ok(n_ok);
-                for (what, e, o) in &extra { st.oracle_fail(what, &line, e, o); }
                 nontrivial = moved && ops.iter().any(mutating_f);
             }
             seen.iter().map(|s| s.show()).collect::<Vec<_>>().join(" ")
@@ -725,6 +827,7 @@ fn case_f(st: &mut Stream, kind: &str, ctor: FCtor, data: &[i32], ops: &[FOp]) {
     };
     if !canary_ok { st.oracle_fail("memory outside the backing slice was written", &line, "guard cells untouched", "guard cell changed"); } else if kind == "mut" { st.oracle_ok(1); }
     st.case(&line, &obs, nontrivial, ops.len() as u64 + 1);
+    sync_failures(st);
 }
 
 fn alphabet_f(sym: usize, n: usize, v: &mut Vals) -> FOp {
@@ -743,6 +846,7 @@ fn alphabet_f(sym: usize, n: usize, v: &mut Vals) -> FOp {
 const NSYM_F: usize = 8;
 
 fn run_fixed(a: &Args) {
+    open_current(&a.out);
     let mut st = Stream::new(&a.out, "fixed");
     let mut rng = Rng::new(a.seed, "fixed");
 
